@@ -27,7 +27,9 @@ Pool == <<
   <<49,101,49,57>>, <<49,69,49,57>>, <<49,48,101,49,56>>, <<49,101,50,48>>, <<49,46,49,101,49,57>>, <<45,49,101,49,57>>, <<57,101,49,56>>, <<49,101,49,48>>, <<49,48,48,48,48,48,48,48,48,48,48>>, <<50,48,48,48,48,48,48,48,48,48,48>>, <<50,101,49,48>>, <<49,101,50,50>>, <<49,50,51,101,49,55>>, <<49,48,48,48,48,48,48,48,48,48,48,48,48,48,48,48,48,48,48>>, <<49,101,49,56>>, <<91,49,101,49,57,93>>, <<91,49,101,50,48,93>>, <<123,34,97,34,58,49,101,49,57,125>>,   \* large magnitudes: 1e19 1E19 10e18 1e20 1.1e19 -1e19 9e18 1e10 10000000000 20000000000 2e10 1e22 ...
   <<123,125>>, <<123,34,97,34,58,49,125>>, <<123,34,97,34,58,49,46,48,125>>, <<123,34,97,34,58,50,125>>, <<123,34,98,34,58,49,125>>,
   <<123,34,97,34,58,49,44,34,98,34,58,50,125>>, <<123,34,98,34,58,50,44,34,97,34,58,49,125>>, <<123,34,97,34,58,110,117,108,108,125>>,
-  <<123,34,97,34,58,91,49,93,125>>, <<123,34,97,34,58,123,125,125>> >>
+  <<123,34,97,34,58,91,49,93,125>>, <<123,34,97,34,58,123,125,125>>,
+  \* negative fractions next to negative integers; containers that hold an EMPTY container after (and before) a differing member
+  <<45,49,46,53>>, <<45,48,46,53>>, <<45,55>>, <<45,55,46,50,53>>, <<45,50>>, <<91,49,44,91,93,93>>, <<91,50,44,91,93,93>>, <<91,91,93,44,49,93>>, <<91,91,93,44,50,93>>, <<123,34,97,34,58,49,44,34,122,34,58,123,125,125>>, <<123,34,97,34,58,50,44,34,122,34,58,123,125,125>>, <<91,91,34,97,34,44,91,93,93,44,53,93>>, <<91,91,34,98,34,44,91,93,93,44,53,93>>, <<91,49,44,123,125,93>>, <<91,34,49,34,44,123,125,93>> >>
 
 Ops == <<<<61,61>>, <<33,61>>, <<60>>, <<60,61>>, <<62>>, <<62,61>>>>
 SixOf(l, r) == <<cLBRACKET>> \o JoinWith([i \in 1..6 |-> l \o <<cSPACE>> \o Ops[i] \o <<cSPACE>> \o r], <<cCOMMA, cSPACE>>) \o <<cRBRACKET>>
